@@ -543,9 +543,31 @@ func calculateReuseIndexFor(r *Rule, oldResTcs []*TrafficShapingController) (equ
 }
 
 // buildResourceTrafficShapingController builds TrafficShapingController slice from rules. the resource of rules must be equals to res
+// statReuseIndexFor returns the index of the first old traffic shaping controller whose statistic can be reused for r,
+// skipping the controllers that an unchanged rule further down the list is going to keep; -1 if there is none.
+func statReuseIndexFor(r *Rule, oldResTcs []*TrafficShapingController, laterRules []*Rule) int {
+	for idx, oldTc := range oldResTcs {
+		oldRule := oldTc.BoundRule()
+		if !oldRule.isStatReusable(r) {
+			continue
+		}
+		kept := false
+		for _, later := range laterRules {
+			if oldRule.isEqualsTo(later) {
+				kept = true
+				break
+			}
+		}
+		if !kept {
+			return idx
+		}
+	}
+	return -1
+}
+
 func buildResourceTrafficShapingController(res string, rulesOfRes []*Rule, oldResTcs []*TrafficShapingController) []*TrafficShapingController {
 	newTcsOfRes := make([]*TrafficShapingController, 0, len(rulesOfRes))
-	for _, rule := range rulesOfRes {
+	for i, rule := range rulesOfRes {
 		if res != rule.Resource {
 			logging.Error(errors.Errorf("unmatched resource name expect: %s, actual: %s", res, rule.Resource), "Unmatched resource name in flow.buildResourceTrafficShapingController()", "rule", rule)
 			continue
@@ -570,6 +592,8 @@ func buildResourceTrafficShapingController(res string, rulesOfRes []*Rule, oldRe
 			logging.Error(errors.New("unsupported flow control strategy"), "Ignoring the rule due to unsupported control behavior in flow.buildResourceTrafficShapingController()", "rule", rule)
 			continue
 		}
+		// the controller of an unchanged rule keeps its state: its statistic is not handed to another rule
+		reuseStatIdx = statReuseIndexFor(rule, oldResTcs, rulesOfRes[i+1:])
 		var tc *TrafficShapingController
 		var e error
 		if reuseStatIdx >= 0 {
